@@ -219,7 +219,7 @@ fn check_step(k: Kind, l: Val, d: Val, got: Val, m: &Model, step: usize, ch: usi
     Ok(!attack && la != da)
 }
 
-fn env_typed<F, D>(c: &EnvCase, st: &mut Stats, mk_detect: &dyn Fn() -> D) -> CheckResult
+fn env_typed<F, D>(c: &EnvCase, st: &mut Stats, mk_detect: &dyn Fn() -> D, named: &dyn Fn(f32, f32) -> Vec<(&'static str, Detector<F, D>)>) -> CheckResult
 where
     F: Frame + 'static,
     F::Sample: Fmt,
@@ -318,6 +318,24 @@ where
             }
         }
     }
+    // every other way of constructing the same detector (named constructors, peak_from_rectifier, rms) behaves identically
+    for (name, mut alt) in named(attack0, release0) {
+        let mut i = 0;
+        for op in &c.ops {
+            match op {
+                Op::SetAttack(x) => alt.set_attack_frames(*x),
+                Op::SetRelease(x) => alt.set_release_frames(*x),
+                Op::SetAttackInf => alt.set_attack_frames(f32::INFINITY),
+                Op::SetReleaseInf => alt.set_release_frames(f32::INFINITY),
+                Op::Frame(_) => {
+                    let o = alt.next(frames_in[i]);
+                    ensure!(o == outs[i], "frame {}: a detector built with {} (attack {}, release {}) yields {:?}, Detector::new with the same detector stage and times yields {:?}", i, name, attack0, release0, o, outs[i]);
+                    i += 1;
+                }
+            }
+        }
+        st.class("named constructors");
+    }
     if c.adaptor {
         // the signal adaptor feeds each source frame to the detector
         let mut ad = signal::from_iter(frames_in.clone()).detect_envelope(Detector::new(mk_detect(), attack0, release0));
@@ -366,12 +384,12 @@ where
     <F::Float as Frame>::Sample: Fmt,
 {
     match c.det {
-        Det::PeakFull => env_typed::<F, Peak<peak::FullWave>>(c, st, &|| Peak::full_wave()),
-        Det::PeakPos => env_typed::<F, Peak<peak::PositiveHalfWave>>(c, st, &|| Peak::positive_half_wave()),
-        Det::PeakNeg => env_typed::<F, Peak<peak::NegativeHalfWave>>(c, st, &|| Peak::negative_half_wave()),
+        Det::PeakFull => env_typed::<F, Peak<peak::FullWave>>(c, st, &|| Peak::full_wave(), &|a, r| vec![("Detector::peak", Detector::peak(a, r)), ("Detector::peak_from_rectifier(FullWave)", Detector::peak_from_rectifier(peak::FullWave, a, r))]),
+        Det::PeakPos => env_typed::<F, Peak<peak::PositiveHalfWave>>(c, st, &|| Peak::positive_half_wave(), &|a, r| vec![("Detector::peak_positive_half_wave", Detector::peak_positive_half_wave(a, r)), ("Detector::peak_from_rectifier(PositiveHalfWave)", Detector::peak_from_rectifier(peak::PositiveHalfWave, a, r))]),
+        Det::PeakNeg => env_typed::<F, Peak<peak::NegativeHalfWave>>(c, st, &|| Peak::negative_half_wave(), &|a, r| vec![("Detector::peak_negative_half_wave", Detector::peak_negative_half_wave(a, r)), ("Detector::peak_from_rectifier(NegativeHalfWave)", Detector::peak_from_rectifier(peak::NegativeHalfWave, a, r))]),
         Det::Rms(n) => {
             ensure!(n >= 1, "bad case: rms window 0");
-            env_typed::<F, Rms<F, Vec<F::Float>>>(c, st, &|| Rms::new(Fixed::from(vec![<F::Float as Frame>::EQUILIBRIUM; n])))
+            env_typed::<F, Rms<F, Vec<F::Float>>>(c, st, &|| Rms::new(Fixed::from(vec![<F::Float as Frame>::EQUILIBRIUM; n])), &|a, r| vec![("Detector::rms", Detector::rms(Fixed::from(vec![<F::Float as Frame>::EQUILIBRIUM; n]), a, r))])
         }
     }
 }
@@ -441,7 +459,7 @@ pub fn run(ctx: &mut Ctx) {
     );
     ctx.assume("rectifier oracle: |amplitude| in the signed companion, max(s, equilibrium), min(s, equilibrium), exact; envelope oracle per channel: out in d + [g_lo, g_hi] (l - d) with g = exp(-1/frames) in f64 widened by 1e-5 relative (f32 powf), result widened by 2 ulp of the format's Float at scale max(|l|,|d|) and 1 LSB for integer formats; d is observed through a second instance of the same detector stage (rectifiers are checked here, RMS in C11)");
     ctx.assume("integer inputs exclude the format minimum (the statement's premise)");
-    for c in ["falling detected value (release path)", "zero time constant", "parameter change mid-run", "unsigned format", "rms detection", "detect_envelope adaptor", "time constant > 1e7 frames (gain rounds to 1.0)", "infinite time constant (the envelope holds)"] {
+    for c in ["falling detected value (release path)", "zero time constant", "parameter change mid-run", "unsigned format", "rms detection", "detect_envelope adaptor", "time constant > 1e7 frames (gain rounds to 1.0)", "infinite time constant (the envelope holds)", "named constructors"] {
         ctx.require_class(c);
     }
 
